@@ -22,6 +22,10 @@ TXT = [ROOT + "/work/a.tlt", ROOT + "/work/idx.txt", ROOT + "/data/a.rawtlt"]
 OPS = ["sort", "remove", "split", "flip2", "crop", "bin"]
 
 
+class _Repeated(Exception):
+    pass
+
+
 class C15(Property):
     ID = "C15"
     SESSIONS = ["s0", "s1"]
@@ -130,6 +134,7 @@ class C15(Property):
         elif op == "flip2":
             axes = rng.pick([["x"], ["y"], ["z"], ["x", "y"], ["z", "x"], "x", "y"])
             step["axes"] = axes
+            step["single_call"] = rng.pick([None, None, ["x", "x"], ["y", "y"], ["z", "z"], ["x", "y", "x", "y"], ["z", "x", "z", "x"]])
             step["via_file"] = rng.chance(0.4)
             step["mid"] = OUTS[0]
         elif op == "crop":
@@ -275,6 +280,11 @@ class C15(Property):
             step = dict(step, mid=mid, via_file=bool(mid))
 
             def call():
+                if step.get("single_call"):
+                    # the same axis twice within ONE call: a list of axes is applied one after the other
+                    once = tiltstack.flip_along_axes(arg, list(step["single_call"]), **dict(kw, output_order="xyz"))
+                    if once.shape != A.shape or not (np.asarray(once) == A).all():
+                        raise _Repeated(list(step["single_call"]))
                 first = tiltstack.flip_along_axes(arg, step["axes"], output_file=mid, **dict(kw, output_order="xyz"))
                 second_in = mid if mid else first
                 return first, tiltstack.flip_along_axes(second_in, step["axes"], output_file=out, input_order="xyz",
@@ -302,6 +312,9 @@ class C15(Property):
             targets.append(self.abspath(world, step["mid"]))
         res = world.call(step["sess"], call, faults=step.get("faults", ()))
         world.note("%s src=%s out=%s -> %s" % (op, step["src"]["kind"], bool(out), res.describe()))
+        if isinstance(res.exc, _Repeated) and not res.faulted:
+            raise Violation("flip_involution", "repeated_axis_in_one_call",
+                            "flip_along_axes(%r) in a single call is not the identity on a %r stack" % (res.exc.args[0], A.shape))
         if outcome_ack(res):
             val = res.value
             self.judge(world, step, op, A, M, val, targets)
@@ -360,12 +373,13 @@ class C15(Property):
             if got.shape != (nw, nh, A.shape[2]):
                 sig = "shape_swapped" if got.shape == (nh, nw, A.shape[2]) else "shape"
                 raise Violation("result_values", sig, "%s: shape %r, expected %r" % (what, got.shape, (nw, nh, A.shape[2])))
-            ok = False
-            for sx in {(W - nw) // 2, -((W - nw) // -2)}:
-                for sy in {(H - nh) // 2, -((H - nh) // -2)}:
-                    if (got.astype(np.float64) == A[sx:sx + nw, sy:sy + nh, :].astype(np.float64)).all():
-                        ok = True
-                        M = A[sx:sx + nw, sy:sy + nh, :]
+            # the central window: cryoCAT's image centre is pixel floor(N/2) (the same convention as the box centre of
+            # maps), so the window of size w is the one whose own centre pixel floor(w/2) sits on it
+            sx, sy = W // 2 - nw // 2, H // 2 - nh // 2
+            ok = (got.astype(np.float64) == A[sx:sx + nw, sy:sy + nh, :].astype(np.float64)).all()
+            M = A[sx:sx + nw, sy:sy + nh, :]
+            if (W - nw) % 2 == 1 or (H - nh) % 2 == 1:
+                world.probes["crop_odd_margin"] += 1
             if not ok:
                 raise Violation("result_values", "crop_window", "%s: result is not the central %dx%d window of the %dx%d images" % (
                     what, nw, nh, W, H))
